@@ -66,9 +66,12 @@ ReceiveAct ==
        LET t == toks[i]
            w == IF t.to # "" /\ Often(85) THEN t.to ELSE w0
            dest == IF sw THEN DefaultOf(w) ELSE t.mint
-       IN /\ b' = [b EXCEPT ![w][dest] = @ + (IF t.amt > 2 THEN t.amt - 2 ELSE 0)]
+           out == IF sw /\ dest # t.mint /\ Often(25) THEN RandomElement({"failed", "pending", "error"}) ELSE "success"
+       IN /\ b' = IF out = "success" THEN [b EXCEPT ![w][dest] = @ + (IF t.amt > 2 THEN t.amt - 2 ELSE 0)] ELSE b
           /\ toks' = [toks EXCEPT ![i].used = TRUE]
-          /\ Record([op |-> "receive", w |-> w, tok |-> t.id, swap |-> sw])
+          /\ Record([op |-> "receive", w |-> w, tok |-> t.id, swap |-> sw,
+                     pay |-> IF out = "success" THEN << >> ELSE <<out>>,
+                     status |-> IF out = "failed" THEN <<"failed">> ELSE IF out = "error" THEN <<"pending">> ELSE << >>])
   /\ UNCHANGED <<ntok, nmelt>>
 
 MeltAct ==
@@ -102,9 +105,12 @@ RemoveSpentAct ==
 MintSwapAct ==
   /\ On("mintswap") /\ Cardinality(Mints) > 1 /\ Often(35)
   /\ \E wm \in Pick({x \in Rich : b[x[1]][x[2]] >= 12}) :
-     \E a \in Pick({x \in SendAmts : x >= 5 /\ x + 6 <= b[wm[1]][wm[2]]}), to \in Pick(Mints \ {wm[2]}) :
-       /\ b' = [b EXCEPT ![wm[1]][wm[2]] = @ - a - 2, ![wm[1]][to] = @ + a - 3]
-       /\ Record([op |-> "mintswap", w |-> wm[1], from |-> wm[2], to |-> to, amt |-> a])
+     \E a \in Pick({x \in SendAmts : x >= 5 /\ x + 6 <= b[wm[1]][wm[2]]}), to \in Pick(Mints \ {wm[2]}),
+        out \in Pick({"success", "success", "success", "failed", "pending", "error"}) :
+       /\ b' = IF out = "success" THEN [b EXCEPT ![wm[1]][wm[2]] = @ - a - 2, ![wm[1]][to] = @ + a - 3] ELSE [b EXCEPT ![wm[1]][wm[2]] = @ - a - 2]
+       /\ Record([op |-> "mintswap", w |-> wm[1], from |-> wm[2], to |-> to, amt |-> a,
+                  pay |-> IF out = "success" THEN << >> ELSE <<out>>,
+                  status |-> IF out = "failed" THEN <<"failed">> ELSE IF out = "error" THEN <<"pending">> ELSE << >>])
   /\ UNCHANGED <<toks, ntok, nmelt>>
 
 RotateAct ==
